@@ -24,10 +24,11 @@ func machUniverses(conf machConf) []machUni {
 			u.Rules = [][]string{{"alice", "admin"}, {"bob", "admin"}, {"admin", "root"}, {"bob", "user"}, {"root", "alice"}}
 		case d.IsG && d.Arity == 3:
 			u.Rules = [][]string{{"alice", "admin", "d1"}, {"alice", "admin", "d2"}, {"bob", "admin", "d1"}, {"admin", "root", "d1"}, {"bob", "user", "d2"}}
+		// field values that equal a policy type / section name ("p", "p2", "g") are ordinary names
 		case d.Arity == 2:
-			u.Rules = [][]string{{"alice", "data1"}, {"bob", "data2"}, {"admin", "data1"}, {"root", "data2"}, {"user", "data1"}}
+			u.Rules = [][]string{{"alice", "data1"}, {"bob", "data2"}, {"admin", "data1"}, {"root", "data2"}, {"user", "data1"}, {"p2", "data1"}, {"p", "g"}}
 		case d.Arity == 3:
-			u.Rules = [][]string{{"alice", "data1", "read"}, {"bob", "data2", "write"}, {"admin", "data1", "write"}, {"root", "data2", "read"}, {"user", "data1", "read"}}
+			u.Rules = [][]string{{"alice", "data1", "read"}, {"bob", "data2", "write"}, {"admin", "data1", "write"}, {"root", "data2", "read"}, {"user", "data1", "read"}, {"p", "data1", "read"}, {"g", "p", "p2"}}
 		case d.Arity == 4:
 			u.Rules = [][]string{{"alice", "d1", "data1", "read"}, {"admin", "d1", "data1", "write"}, {"admin", "d2", "data2", "read"}, {"root", "d1", "data2", "write"}, {"bob", "d2", "data1", "read"}}
 		case d.Arity == 5:
@@ -66,19 +67,26 @@ func machGenOp(rng *rand.Rand, m *mach, us []machUni, o machGenOpts) *mOp {
 		}
 		return nil
 	}
+	batch := func(n int) [][]string { // n rules (repetitions possible), n >= 1: one-rule batches are batches
+		var b [][]string
+		for i := 0; i < n; i++ {
+			b = append(b, pick())
+		}
+		return b
+	}
 	k := rng.Intn(21)
 	var op *mOp
 	switch k {
 	case 0, 1, 2:
 		op = &mOp{Kind: "add", Pt: u.Pt, R1: [][]string{pick()}}
 	case 3:
-		op = &mOp{Kind: "addmany", Pt: u.Pt, R1: [][]string{pick(), pick()}}
+		op = &mOp{Kind: "addmany", Pt: u.Pt, R1: batch(1 + rng.Intn(3))}
 	case 4:
-		op = &mOp{Kind: "addmanyex", Pt: u.Pt, R1: [][]string{pick(), pick(), pick()}}
+		op = &mOp{Kind: "addmanyex", Pt: u.Pt, R1: batch(1 + rng.Intn(3))}
 	case 5, 6:
 		op = &mOp{Kind: "remove", Pt: u.Pt, R1: [][]string{pick()}}
 	case 7:
-		op = &mOp{Kind: "removemany", Pt: u.Pt, R1: [][]string{pick(), pick()}}
+		op = &mOp{Kind: "removemany", Pt: u.Pt, R1: batch(1 + rng.Intn(3))}
 	case 8, 9:
 		n := fresh()
 		old := pick()
@@ -202,9 +210,13 @@ func machGenOp(rng *rand.Rand, m *mach, us []machUni, o machGenOpts) *mOp {
 		r := cur[rng.Intn(len(cur))]
 		fi := rng.Intn(len(r))
 		fvs := []string{r[fi]}
+		// new rules: not listed, or listed AND selected by the filter (a rule may be "replaced by
+		// itself"); a new rule that is listed but not selected would be listed twice (F08 shape)
 		var news [][]string
-		for _, x := range u.Rules {
-			if !containsRule(cur, x) && len(news) < 1+rng.Intn(2) {
+		want := 1 + rng.Intn(2)
+		for _, i := range rng.Perm(len(u.Rules)) {
+			x := u.Rules[i]
+			if len(news) < want && (!containsRule(cur, x) || specMatches(fi, fvs, x)) {
 				news = append(news, x)
 			}
 		}
